@@ -13,23 +13,34 @@ Fixpoint proj (j : nat) (tr : list gev) : list jev :=
   | Sentinel :: t => proj j t
   end.
 
-(* did job j start before the sentinel and return after it (or never)? *)
-Fixpoint started_in (j : nat) (tr : list gev) : bool :=
-  match tr with
-  | [] => false
-  | Sentinel :: _ => false
-  | J k FStart :: t => if Nat.eqb j k then true else started_in j t
-  | _ :: t => started_in j t
+(* Two sentinels are placed by the harness: S1 shortly after the deadline, S2 well after it.
+   seg1 = events before S1, seg12 = events before S2.  A job that started before S1 and has not returned before S2 was
+   running across the deadline: it must have been told to cancel (CANCELLING written) before S2. *)
+Fixpoint before_sentinel (tr : list gev) : list gev :=
+  match tr with [] => [] | Sentinel :: _ => [] | e :: t => e :: before_sentinel t end.
+Fixpoint after_sentinel (tr : list gev) : option (list gev) :=
+  match tr with [] => None | Sentinel :: t => Some t | _ :: t => after_sentinel t end.
+Definition occurs (j : nat) (f : jev -> bool) (tr : list gev) : bool :=
+  existsb (fun e => match e with J k x => Nat.eqb j k && f x | Sentinel => false end) tr.
+Definition is_start (e : jev) : bool := match e with FStart => true | _ => false end.
+Definition is_wcancelling (e : jev) : bool := match e with W CANCELLING => true | _ => false end.
+
+(* straddles: both sentinels were logged, started before S1, not returned before S2 *)
+Definition straddles (j : nat) (tr : list gev) : bool :=
+  match after_sentinel tr with
+  | None => false
+  | Some rest =>
+    match after_sentinel rest with
+    | None => false
+    | Some _ => occurs j is_start (before_sentinel tr)
+                && negb (occurs j is_return (before_sentinel tr ++ before_sentinel rest))
+    end
   end.
-Fixpoint returned_in (j : nat) (tr : list gev) : bool :=
-  match tr with
-  | [] => false
-  | Sentinel :: _ => false
-  | J k FReturn :: t => if Nat.eqb j k then true else returned_in j t
-  | _ :: t => returned_in j t
+Definition told_before_s2 (j : nat) (tr : list gev) : bool :=
+  match after_sentinel tr with
+  | None => false
+  | Some rest => occurs j is_wcancelling (before_sentinel tr ++ before_sentinel rest)
   end.
-Definition has_sentinel (tr : list gev) : bool := existsb (fun e => match e with Sentinel => true | _ => false end) tr.
-Definition straddles (j : nat) (tr : list gev) : bool := has_sentinel tr && started_in j tr && negb (returned_in j tr).
 
 Fixpoint lookup_row (j : nat) (t : list (nat * st * Z)) : list (st * Z) :=
   match t with [] => [] | (k, s, o) :: r => if Nat.eqb j k then (s, o) :: lookup_row j r else lookup_row j r end.
@@ -52,7 +63,7 @@ Definition ok_job (tr : list gev) (vals : list (nat * Z)) (table : list (nat * s
       match lookup_row j table with
       | [(rs, ro)] =>
           if negb (st_eqb rs c) then 4
-          else if straddles j tr && negb (mem_st CANCELLING (writes s)) then 6
+          else if straddles j tr && negb (told_before_s2 j tr) then 6
           else if mem_st CANCELLING (writes s) && st_eqb c DONE then 7
           else match returned s, lookup_val j vals with
                | true, Some v => if Z.eqb ro v then 0 else 5
